@@ -29,9 +29,11 @@ import (
 	"time"
 
 	"bytes"
+	"context"
 
 	"tunnox-core/internal/client"
 	"tunnox-core/internal/client/mapping"
+	"tunnox-core/internal/client/tunnel"
 	"tunnox-core/internal/utils/iocopy"
 	vc "tunnox-core/internal/verifharness/common"
 )
@@ -41,8 +43,9 @@ var (
 	errWrite = errors.New("verif: injected write refusal")
 
 	stallTimeout = 3 * time.Second
-	watchdog     = 10 * time.Second
+	watchdog     = 6 * time.Second
 	timeouts     atomic.Int64 // relay runs that never returned (their goroutines may still spin)
+	knownCase    atomic.Bool  // the case being executed is the witness of a recorded finding (K:<key>)
 	unscheduledTicks atomic.Int64 // runs repeated because the real flush ticker fired outside the schedule
 )
 
@@ -342,6 +345,18 @@ func (c closeOnly) Close() error {
 	return c.g.Close()
 }
 
+// netConn: a transport connection (net.Conn) without CloseWrite, for the production constructors.
+type netConn struct{ g *gconn }
+
+func (c netConn) Read(p []byte) (int, error)       { return c.g.Read(p) }
+func (c netConn) Write(p []byte) (int, error)      { return c.g.Write(p) }
+func (c netConn) Close() error                     { return c.g.Close() }
+func (c netConn) LocalAddr() net.Addr              { return fakeAddr("l") }
+func (c netConn) RemoteAddr() net.Addr             { return fakeAddr("r") }
+func (c netConn) SetDeadline(time.Time) error      { return nil }
+func (c netConn) SetReadDeadline(time.Time) error  { return nil }
+func (c netConn) SetWriteDeadline(time.Time) error { return nil }
+
 type readSide struct{ g *gconn }
 
 func (r readSide) Read(p []byte) (int, error) { return r.g.Read(p) }
@@ -377,6 +392,13 @@ func endpoint(g *gconn) io.ReadWriteCloser {
 		rwc, err = iocopy.NewReadWriteCloser(readSide{g}, writeSideCloser{g}, closeFn)
 	case "none":
 		rwc, err = iocopy.NewReadWriteCloser(readSide{g}, writeOnly{g}, closeFn)
+	case "wcw":
+		rwc, err = iocopy.NewReadWriteCloserWithCloseWrite(readSide{g}, writeOnly{g}, closeFn, func() error { return g.CloseWrite() })
+	case "prod":
+		rwc = client.VerifCreateTunnelRWC(netConn{g})
+		if rwc == nil {
+			panic("createTunnelRWC failed")
+		}
 	default:
 		return g
 	}
@@ -545,6 +567,43 @@ func runRelay(f func() *iocopy.Result, returned *atomic.Bool) chan relayRes {
 	return ch
 }
 
+// ---------------------------------------------------------------- the relay run by a real tunnel.Tunnel
+
+type tunnelRun struct {
+	t      *tunnel.Tunnel
+	ch     chan relayRes
+	closed atomic.Int64
+	mu     sync.Mutex
+	rsn    string
+}
+
+func (tr *tunnelRun) reason() string { tr.mu.Lock(); defer tr.mu.Unlock(); return tr.rsn }
+
+// startTunnel: NewTunnel + Start as the mapping handler does; Start launches runDataCopy, which runs the relay
+// and closes the tunnel with the reason derived from the relay result. The "result" delivered on ch is empty:
+// the tunnel keeps it to itself.
+func startTunnel(proto string, local, tunnelRWC io.ReadWriteCloser, returned *atomic.Bool) *tunnelRun {
+	tr := &tunnelRun{ch: make(chan relayRes, 1)}
+	mgr := tunnel.NewTunnelManager(context.Background(), tunnel.TunnelRoleListen)
+	tr.t = tunnel.NewTunnel(&tunnel.TunnelConfig{
+		ID: "verif-c12", MappingID: "m", Role: tunnel.TunnelRoleListen, Protocol: proto,
+		LocalConn: local, TunnelRWC: tunnelRWC, Manager: mgr,
+		OnClosed: func(reason tunnel.CloseReason, err error) {
+			tr.mu.Lock()
+			tr.rsn = reason.String()
+			tr.mu.Unlock()
+			if tr.closed.Add(1) == 1 {
+				returned.Store(true)
+				tr.ch <- relayRes{r: &iocopy.Result{}}
+			}
+		},
+	})
+	if err := tr.t.Start(); err != nil {
+		tr.ch <- relayRes{panic: "panic start:" + strings.ReplaceAll(err.Error(), " ", "_")}
+	}
+	return tr
+}
+
 // ---------------------------------------------------------------- TCP
 
 type epSpec struct {
@@ -567,7 +626,7 @@ func stepsFor(chunks [][]byte) int {
 func parseEP(t []string) (epSpec, []string, error) {
 	var e epSpec
 	e.kind = "cw"
-	if len(t) > 0 && (t[0] == "cw" || t[0] == "same" || t[0] == "split" || t[0] == "none") {
+	if len(t) > 0 && (t[0] == "cw" || t[0] == "same" || t[0] == "split" || t[0] == "none" || t[0] == "prod" || t[0] == "wcw") {
 		e.kind = t[0]
 		t = t[1:]
 	}
@@ -595,7 +654,14 @@ func parseEP(t []string) (epSpec, []string, error) {
 	return e, t[5+k:], nil
 }
 
-func runTCP(toks []string) (string, error) {
+func caseWatchdog(known bool) time.Duration {
+	if known {
+		return 1500 * time.Millisecond
+	}
+	return watchdog
+}
+
+func runTCP(toks []string, known bool) (string, error) {
 	// tcp A <ep> B <ep> s <sched>
 	if len(toks) < 3 || toks[1] != "A" {
 		return "", errors.New("A expected")
@@ -623,7 +689,18 @@ func runTCP(toks []string) (string, error) {
 	A.kind, B.kind = ea.kind, eb.kind
 	var returned atomic.Bool
 	connA, connB := endpoint(A), endpoint(B)
-	ch := runRelay(func() *iocopy.Result { return iocopy.Bidirectional(connA, connB, nil) }, &returned)
+	viaTunnel := toks[0] == "tcpt"
+	var tun *tunnelRun
+	var ch chan relayRes
+	if viaTunnel {
+		tun = startTunnel("tcp", connA, connB, &returned)
+		ch = tun.ch
+	} else if len(sc)%2 == 1 {
+		// the SOCKS5 path calls the relay through iocopy.Simple
+		ch = runRelay(func() *iocopy.Result { return iocopy.Simple(connA, connB, "verif") }, &returned)
+	} else {
+		ch = runRelay(func() *iocopy.Result { return iocopy.Bidirectional(connA, connB, nil) }, &returned)
+	}
 	s := &sched{conns: []*gconn{A, B}}
 	// a direction is over when its half-close reached the sink; for a sink on which no half-close is
 	// observable: when the goroutine has left its loop (plus a moment for what it does on the way out)
@@ -634,7 +711,7 @@ func runTCP(toks []string) (string, error) {
 			return true
 		}
 		if loopLeft(src, sink) {
-			if sink.kind != "cw" {
+			if sink.kind != "cw" && sink.kind != "wcw" {
 				if !settled[sink] {
 					settled[sink] = true
 					time.Sleep(300 * time.Microsecond)
@@ -703,12 +780,38 @@ func runTCP(toks []string) (string, error) {
 		if rr.panic != "" {
 			return rr.panic, nil
 		}
+		if viaTunnel {
+			// the relay result is not handed out by the tunnel: what it made of it is
+			st := tun.t.GetStats()
+			se, re := "none", "none"
+			if A.tailOut.Load() && ea.tail == "err" {
+				se = "read"
+			}
+			if B.wRefused.Load() {
+				se = "write"
+			}
+			if B.tailOut.Load() && eb.tail == "err" {
+				re = "read"
+			}
+			if A.wRefused.Load() {
+				re = "write"
+			}
+			return fmt.Sprintf("ret 1 toB %s toA %s wfB %s wfA %s bad %s cwB %s cwA %s cl %s sent %d recv %d serr %s rerr %s reason %s st %d %d closed %d",
+				vc.Hex(B.stream), vc.Hex(A.stream), b01(B.wfEnv), b01(A.wfEnv), b01(A.bad || B.bad || A.writerClosed || B.writerClosed), b01(B.cw), b01(A.cw),
+				b01(A.closed && B.closed), st.BytesSent, st.BytesRecv, se, re, tun.reason(), st.BytesSent, st.BytesRecv, tun.closed.Load()), nil
+		}
 		r := rr.r
 		return fmt.Sprintf("ret 1 toB %s toA %s wfB %s wfA %s bad %s cwB %s cwA %s cl %s sent %d recv %d serr %s rerr %s",
 			vc.Hex(B.stream), vc.Hex(A.stream), b01(B.wfEnv), b01(A.wfEnv), b01(A.bad || B.bad || A.writerClosed || B.writerClosed), b01(B.cw), b01(A.cw),
 			b01(A.closed && B.closed), r.BytesSent, r.BytesReceived, errKind(r.SendError), errKind(r.ReceiveError)), nil
-	case <-time.After(watchdog):
-		timeouts.Add(1)
+	case <-time.After(caseWatchdog(known)):
+		if !known {
+			timeouts.Add(1)
+		}
+		// nobody will ever end these two: release the blocked goroutines
+		s.stall()
+		A.Close()
+		B.Close()
 		return fmt.Sprintf("timeout stalls %d toB %d toA %d", s.stalls, B.streamLen(), A.streamLen()), nil
 	}
 }
@@ -752,6 +855,11 @@ func runUDP(toks []string) (string, error) {
 	}
 	utail := toks[i]
 	i++
+	uwfail := -1
+	if i < len(toks) && strings.HasPrefix(toks[i], "wf") {
+		uwfail, _ = strconv.Atoi(toks[i][2:])
+		i++
+	}
 	k, err := num()
 	if err != nil {
 		return "", err
@@ -855,14 +963,17 @@ func runUDP(toks []string) (string, error) {
 		tchunks = append(tchunks, rest)
 	}
 
+	if toks[0] == "udpr" {
+		return execUDPR(tchunks, ttail), nil
+	}
 	if toks[0] == "udpv" {
-		return execUDPV(tchunks, ttail, sc), nil
+		return execUDPV(dgs, tchunks, ttail, sc), nil
 	}
 	hasHold := strings.ContainsAny(sc, "U")
 	var obs string
 	for attempt := 0; attempt < 5; attempt++ {
 		var tainted bool
-		obs, tainted = execUDP(evs, dgs, utail, tchunks, ttail, tfused, sc)
+		obs, tainted = execUDP(evs, dgs, utail, uwfail, tchunks, ttail, tfused, sc)
 		// the real 20 ms ticker fired outside the windows of the schedule before a scheduled slow write:
 		// the run did not execute the schedule of the case; run it again
 		if !(tainted && hasHold) {
@@ -878,8 +989,8 @@ const (
 	udpReadBuf   = 65536
 )
 
-func execUDP(evs []uev, dgs [][]byte, utail string, tchunks [][]byte, ttail string, tfused bool, sc string) (string, bool) {
-	U := newConn("U", dgs, utail, false, -1, false, true)
+func execUDP(evs []uev, dgs [][]byte, utail string, uwfail int, tchunks [][]byte, ttail string, tfused bool, sc string) (string, bool) {
+	U := newConn("U", dgs, utail, false, uwfail, false, true)
 	T := newConn("T", tchunks, ttail, tfused, -1, false, false)
 	T.setWatch(true)
 	var returned atomic.Bool
@@ -1098,7 +1209,7 @@ func execUDP(evs []uev, dgs [][]byte, utail string, tchunks [][]byte, ttail stri
 		for _, d := range U.dgrams {
 			sb.WriteString(" " + vc.Hex(d))
 		}
-		fmt.Fprintf(&sb, " nread %d serr %s rerr %s sent %d recv %d", U.nreadDg, b01(r.SendError != nil), b01(r.ReceiveError != nil),
+		fmt.Fprintf(&sb, " nread %d wfu %s serr %s rerr %s sent %d recv %d", U.nreadDg, b01(U.wfEnv), b01(r.SendError != nil), b01(r.ReceiveError != nil),
 			r.BytesSent, r.BytesReceived)
 		return sb.String(), T.isTainted()
 	case <-time.After(watchdog):
@@ -1164,9 +1275,10 @@ func (c *countConn) Close() error { return c.v.Close() }
 // execUDPV: udpv U hold 0 T <tail> 0 tds … s <schedule over t,s>
 // iocopy.UDP between the REAL mapping.UDPVirtualConn (as tunnel.runDataCopy uses it) and a gated tunnel double.
 // t: one iteration of the tunnel->UDP goroutine; s: the socket accepts the next datagram of the send loop.
-func execUDPV(tchunks [][]byte, ttail string, sc string) string {
+func execUDPV(dgs [][]byte, tchunks [][]byte, ttail string, sc string) string {
 	sock := &gpc{grants: make(chan struct{}, 1<<16)}
-	vconn := mapping.VerifNewUDPVirtualConn(sock, fakeAddr("app"))
+	sess := mapping.VerifNewSession(sock, fakeAddr("app"))
+	vconn := sess.Conn
 	T := newConn("T", tchunks, ttail, false, -1, false, false)
 	var returned atomic.Bool
 	cc := &countConn{v: vconn}
@@ -1188,11 +1300,38 @@ func execUDPV(tchunks [][]byte, ttail string, sc string) string {
 			s.stall()
 		}
 	}
+	// local -> tunnel: the datagram arrives on the listener socket; the adapter's read loop hands it to the session
+	// (processPacket); the relay reads it from the virtual connection, batches it, the 20 ms ticker flushes it
+	ui, expected := 0, 0
+	stepU := func() {
+		if ui >= len(dgs) || finDec() || s.stalls > 0 {
+			return
+		}
+		d := dgs[ui]
+		ui++
+		if len(d) > 0 {
+			expected += 2 + len(d)
+		}
+		sess.Deliver(d)
+		if !waitUntil(func() bool { return sess.ReadQueued() == 0 }, stallTimeout) {
+			s.stall()
+		}
+	}
+	flushed := func() {
+		// everything delivered so far must be on the tunnel before the tunnel's end closes the session
+		if !waitUntil(func() bool { return T.streamLen() >= expected }, stallTimeout) {
+			s.stall()
+		}
+	}
 	stepT := func() {
 		if finDec() || s.stalls > 0 {
 			return
 		}
 		if T.exhausted() {
+			for ui < len(dgs) {
+				stepU()
+			}
+			flushed()
 			// the end of the tunnel is about to be delivered: the relay will close the session, which stops its
 			// send loop (a datagram still queued then may be dropped: UDP teardown) - let the socket take the queue first
 			for pending() > 0 && s.stalls == 0 {
@@ -1207,6 +1346,8 @@ func execUDPV(tchunks [][]byte, ttail string, sc string) string {
 			stepT()
 		case 's':
 			send()
+		case 'u':
+			stepU()
 		}
 	}
 	for j := 0; j < stepsFor(tchunks) && !finDec(); j++ {
@@ -1226,7 +1367,7 @@ func execUDPV(tchunks [][]byte, ttail string, sc string) string {
 		for _, d := range sock.sent {
 			sb.WriteString(" " + vc.Hex(d))
 		}
-		fmt.Fprintf(&sb, " nread 0 serr %s rerr %s sent %d recv %d", b01(r.SendError != nil), b01(r.ReceiveError != nil),
+		fmt.Fprintf(&sb, " nread %d wfu 0 serr %s rerr %s sent %d recv %d", len(dgs), b01(r.SendError != nil), b01(r.ReceiveError != nil),
 			r.BytesSent, r.BytesReceived)
 		return sb.String()
 	case <-time.After(watchdog):
@@ -1234,6 +1375,57 @@ func execUDPV(tchunks [][]byte, ttail string, sc string) string {
 		s.stall()
 		sock.free.Store(true)
 		return fmt.Sprintf("timeout stalls %d udp %d", s.stalls, len(sock.sent))
+	}
+}
+
+// ---------------------------------------------------------------- UDP relay with a real *net.UDPConn (sendmmsg batch writer)
+
+// execUDPR: udpr U hold 0 T <tail> 0 tds … : the local side is a real connected UDP socket on loopback, so iocopy.UDP
+// takes its udpBatchWriter path (ipv4.PacketConn.WriteBatch / sendmmsg, 32 messages per call); the datagrams are
+// collected from the peer socket.
+func execUDPR(tchunks [][]byte, ttail string) string {
+	app, err := net.ListenUDP("udp", &net.UDPAddr{IP: net.IPv4(127, 0, 0, 1)})
+	if err != nil {
+		return "nosocket " + strings.ReplaceAll(err.Error(), " ", "_")
+	}
+	defer app.Close()
+	_ = app.SetReadBuffer(4 << 20)
+	relaySock, err := net.DialUDP("udp", nil, app.LocalAddr().(*net.UDPAddr))
+	if err != nil {
+		return "nosocket " + strings.ReplaceAll(err.Error(), " ", "_")
+	}
+	T := newConn("T", tchunks, ttail, false, -1, false, false)
+	T.free.Store(true)
+	var returned atomic.Bool
+	ch := runRelay(func() *iocopy.Result { return iocopy.UDP(relaySock, T, nil) }, &returned)
+	select {
+	case rr := <-ch:
+		if rr.panic != "" {
+			return rr.panic
+		}
+		r := rr.r
+		var got [][]byte
+		buf := make([]byte, 70000)
+		for {
+			app.SetReadDeadline(time.Now().Add(150 * time.Millisecond))
+			n, _, err := app.ReadFromUDP(buf)
+			if err != nil {
+				break
+			}
+			got = append(got, append([]byte(nil), buf[:n]...))
+		}
+		var sb strings.Builder
+		fmt.Fprintf(&sb, "ret 1 tun %s udp %d", vc.Hex(T.stream), len(got))
+		for _, d := range got {
+			sb.WriteString(" " + vc.Hex(d))
+		}
+		fmt.Fprintf(&sb, " nread 0 wfu 0 serr %s rerr %s sent %d recv %d", b01(r.SendError != nil), b01(r.ReceiveError != nil),
+			r.BytesSent, r.BytesReceived)
+		return sb.String()
+	case <-time.After(watchdog):
+		timeouts.Add(1)
+		relaySock.Close()
+		return "timeout"
 	}
 }
 
@@ -1366,22 +1558,25 @@ func (r *runner) add(line, cat string) {
 
 func execLine(line string) string {
 	toks := strings.Fields(line)
+	known := false
 	if len(toks) > 0 && strings.HasPrefix(toks[0], "K:") {
 		toks = toks[1:]
+		known = true
 	}
 	if len(toks) == 0 {
 		return "bad-case"
 	}
-	if timeouts.Load() >= 4 {
-		// relay goroutines that never returned keep spinning; more of them would only starve the run
+	if timeouts.Load() >= 1 {
+		// a relay run never returned: its goroutines may spin forever and every further hit would cost a full
+		// watchdog period; the first confirmed one is the failing input, stop here
 		return "skipped-after-timeouts"
 	}
 	var obs string
 	var err error
 	switch toks[0] {
-	case "tcp":
-		obs, err = runTCP(toks)
-	case "udp", "udpv":
+	case "tcp", "tcpt":
+		obs, err = runTCP(toks, known)
+	case "udp", "udpv", "udpr":
 		obs, err = runUDP(toks)
 	case "s5":
 		obs, err = runS5(toks)
